@@ -581,7 +581,7 @@ static void case_arrarr(vf_rng *r)
 }
 
 /* ---- entry ---------------------------------------------------------------- */
-static uint64_t n_hist(void) { return vf_thorough ? 1200000 : 120000; }
+static uint64_t n_hist(void) { return vf_thorough ? 3600000 : 120000; }
 static uint64_t n_meta(void) { return vf_thorough ? 200000 : 20000; }
 static uint64_t n_arr(void) { return vf_thorough ? 200000 : 20000; }
 uint64_t vf_cases(void) { return n_hist() + n_meta() + n_arr(); }
